@@ -21,8 +21,10 @@ type Registry struct {
 	Wrappers map[string]reflect.Type
 	// ImplFilter restricts Implementers to types for which it returns true (nil = all)
 	ImplFilter func(reflect.Type) bool
-	impls      map[reflect.Type][]reflect.Type
-	minD       map[reflect.Type]int
+	// Shared (set by tlx.BridgeShared on a copy): abstract sub-values already bridged in this call -> their Go pointer
+	Shared map[*Val]reflect.Value
+	impls  map[reflect.Type][]reflect.Type
+	minD   map[reflect.Type]int
 }
 
 var (
